@@ -37,7 +37,7 @@ def proc_item(scratch, size, mode, code, eintr=None):
 
 
 def describe(d):
-    keys = ["what", "kind", "writers", "reader", "nreaders", "close", "size", "mode", "code", "signal", "share", "n", "eintr"]
+    keys = ["what", "kind", "writers", "reader", "nreaders", "close", "size", "mode", "code", "signal", "share", "n", "how", "eintr"]
     return " ".join("%s=%s" % (k, jdn(d[Kw(k)])) for k in keys if Kw(k) in d and d[Kw(k)] is not None)
 
 
@@ -59,6 +59,8 @@ def shape_sig(d):
         return "duplex:%s%s" % (cls(d[Kw("size")]), ":gc" if d.get(Kw("gc")) else "")
     if d[Kw("what")] == "shared":
         return "shared-redirect:%s" % d[Kw("share")]
+    if d[Kw("what")] == "halfclose":
+        return "half-close:%s:%s" % (d[Kw("how")], cls(d[Kw("size")]))
     if d[Kw("what")] == "close-both":
         return "close-with-pending:%s%s" % ("reader" if d[Kw("reader")] else "", "+writer" if d[Kw("writer")] else "")
     if d[Kw("what")] == "accept-burst":
@@ -89,6 +91,14 @@ def judge_extra(d, r):
             probs.append(("operation-left-suspended", "stream closed while a reader%s parked on it: %r; reader %r, writer %r "
                           "(before the close: %r)" % (" and a writer were" if d[Kw("writer")] and d[Kw("reader")] else
                                                       (" was" if d[Kw("reader")] else "... a writer was"), st_, rres, wres, before)))
+    if what == "halfclose":
+        st_, sres, cres, total, bad = r
+        size = d[Kw("size")]
+        if st_ != "finished":
+            probs.append(("operation-left-suspended", "payload of %d bytes, then net/shutdown %s: %r server=%r client=%r" % (size, d[Kw("how")], st_, sres, cres)))
+        elif sres != "ok" or cres != "got:%d" % size or total != size or bad is not None:
+            probs.append(("half-close", "payload of %d bytes, then net/shutdown %s: server %r received %r bytes (first bad %r), client "
+                          "read the reply %r" % (size, d[Kw("how")], sres, total, bad, cres)))
     if what == "accept-burst":
         st_, n, served, wrong = r
         if st_ != "finished" or served != n or wrong:
@@ -210,7 +220,7 @@ def run_items(chk, part, ds, variant="fast", chunk=8):
                     probs.append(("chunk-size", "ev/chunk %d returned %d bytes" % (d[Kw("size")], total)))
                 elif bad is not None:
                     probs.append(("order-violated", "position %r" % (bad,)))
-        if what in ("duplex", "shared", "close-both", "accept-burst"):
+        if what in ("duplex", "shared", "close-both", "accept-burst", "halfclose"):
             probs = judge_extra(d, r)
         if what == "signal":
             # killed by a signal: the wait result must not look like a normal small exit code 0
@@ -228,7 +238,7 @@ def run_items(chk, part, ds, variant="fast", chunk=8):
                     continue
                 r2, _n = canonparse.parse(text2)
                 p2 = judge_stream(d, r2) if what == "stream" else (judge_proc(d, r2) if what == "proc" else [(k, "") for k in kinds])
-                if what in ("duplex", "shared", "close-both", "accept-burst"):
+                if what in ("duplex", "shared", "close-both", "accept-burst", "halfclose"):
                     p2 = judge_extra(d, r2)
                 if what in ("execute", "queued", "signal"):
                     # re-judge with the same rules as above
@@ -320,6 +330,9 @@ def main():
         cb = [{Kw("what"): Kw("close-both"), Kw("scratch"): scratch, Kw("size"): 4 << 20, Kw("reader"): rd, Kw("writer"): wr, Kw("eintr"): None}
               for rd, wr in ((True, False), (False, True), (True, True))]
         run_items(chk, "close-with-pending", cb, chunk=1)
+        hc = [{Kw("what"): Kw("halfclose"), Kw("scratch"): scratch, Kw("size"): n, Kw("how"): Kw("w"), Kw("eintr"): None}
+              for n in (0, 1, 1000, 70000, 300000)]
+        run_items(chk, "half-close", hc, chunk=2)
         ab = [{Kw("what"): Kw("accept-burst"), Kw("scratch"): scratch, Kw("n"): n, Kw("eintr"): None} for n in (1, 2, 3, 12, 40)]
         run_items(chk, "accept-burst", ab, chunk=1)
         sh = [{Kw("what"): Kw("shared"), Kw("scratch"): scratch, Kw("share"): Kw(m), Kw("eintr"): None}
